@@ -118,7 +118,24 @@ def edits(q):
                 n.args.append(copy.deepcopy(a0))
                 yield f"extra-arg#{i}"
                 n.args.pop()
-        elif isinstance(n, ast.BinOp):
+        if isinstance(n, (ast.Call, ast.Tuple, ast.List)):
+            # move the last argument of a call to the front of the next sibling call (and back)
+            sibs = n.args if isinstance(n, ast.Call) else n.elts
+            for j in range(len(sibs) - 1):
+                a, b = sibs[j], sibs[j + 1]
+                if isinstance(a, ast.Call) and isinstance(b, ast.Call) and a.args:
+                    x = a.args.pop()
+                    b.args.insert(0, x)
+                    yield f"move-arg#{i}.{j}"
+                    b.args.pop(0)
+                    a.args.append(x)
+                if isinstance(a, ast.Call) and isinstance(b, ast.Call) and b.args:
+                    x = b.args.pop(0)
+                    a.args.append(x)
+                    yield f"move-arg-back#{i}.{j}"
+                    a.args.pop()
+                    b.args.insert(0, x)
+        if isinstance(n, ast.BinOp):
             old = n.op
             n.op = ast.Sub() if isinstance(old, ast.Add) else ast.Add()
             yield f"binop#{i}"
@@ -436,7 +453,10 @@ def _seeds():
     return ["Select(ds, lambda e: e.name == 'abc')", "Select(ds, lambda e: e.pt * 2.5)",
             "Select(ds, lambda e: e.Jets('été'))", "Select(ds, lambda e: (e.a, 'x', 1.0, True, None))",
             "ResultTTree(Select(ds, lambda e: e.a), ['col'], 'tree', 'f.root')",
-            "Select(ds, lambda e: {'k': e.a, 'l': [e.b, 2]})", "Select(ds, lambda e: e.a if e.b > 1 and not e.c else -e.d)"]
+            "Select(ds, lambda e: {'k': e.a, 'l': [e.b, 2]})", "Select(ds, lambda e: e.a if e.b > 1 and not e.c else -e.d)",
+            # neighbouring calls whose arguments can move from one to the other (which call owns an argument is structure)
+            "Select(ds, lambda e: pair(scale(e.pt, cut), cut(e.eta)))", "f(g(a, h), h(b), h)", "f(g(x, x), x(x), [x, x], (x,))",
+            "Select(ds, lambda e: (f(e.a, g), g(e.b, 1)))"]
 
 
 def _fluent_cases():
